@@ -137,17 +137,13 @@ theorem toposort_deterministic' (ns : List StructDecl) {m : GoMap Key Nat} (h : 
     topoSortRep m ns = topoSort ns :=
   (toposort_deterministic ns (buildByQID_keysNodup ns) h).symm
 
--- OPEN: toposort_is_topological — when `topoSort ns = some order`, `order` is a permutation of
---   `List.range ns.length` and every struct follows the structs its fields resolve to (through the
---   last-wins `byQID` lookup); `none` only if the resolved dependency graph has a cycle.
---   theorem toposort_is_topological (ns : List StructDecl) (order : List Nat) (h : topoSort ns = some order) :
---       order ~ List.range ns.length ∧
---       ∀ pre i suf, order = pre ++ i :: suf → ∀ q ∈ (ns[i]?.map (·.fieldTypes)).getD [],
---         ∀ d, (buildByQID ns).get q = some d → d ∈ pre
---   Needs the DFS invariant (permanent ↔ emitted, temporaries = current stack) through the fuel
---   recursion and the nested fold; not attempted for lack of time.  The harness oracle checks
---   exactly this on every generated graph (keys topo:not-a-permutation, topo:dependency-after-dependant,
---   topo:false-cycle), on the real ast.TopologicalSortStructs.
+-- `toposort_is_topological` (when `topoSort ns = some order`, `order` lists every struct index exactly once
+-- and every struct after the structs its fields resolve to) is proved in Props/C20Topo.lean (round 2).
+-- OPEN (outside the property; model validation only): `none` is returned only if the resolved dependency
+--   graph has a cycle, i.e. the fuel `ns.length + 2` never runs out.  Needs the stack invariant
+--   (temporaries = the current DFS path, so depth ≤ number of non-temporary nodes + 1).  The harness oracle
+--   checks it on every generated graph on the real ast.TopologicalSortStructs (key topo:false-cycle), and a
+--   fuel shortage in the model would show as a `topo` correspondence mismatch.
 
 /-- non-vacuity: dependencies first, declaration order otherwise; a cycle is refused -/
 example : topoSort [⟨10, [11, 12]⟩, ⟨11, [12]⟩, ⟨12, [99]⟩, ⟨13, []⟩] = some [2, 1, 0, 3] := by decide
